@@ -185,9 +185,13 @@ class Ctx:
             sub, res.get("cases", 0), res.get("nontrivial", 0), res.get("n_mismatch", 0), time.time() - t))
         return res
 
-    def absorb(self, res, what, count_traces=False):
-        """Fold a harness result into coverage and turn mismatches into violations."""
+    def absorb(self, res, what, count_traces=True):
+        """Fold a harness result into coverage and turn mismatches into violations.
+        G replays count as traces validated against the implementation: every emitted case is a
+        behaviour of the specification (shortest history + step) executed on the real code."""
         self.cov["evaluations"] += res.get("cases", 0)
+        if count_traces and what.startswith("G:"):
+            self.cov["traces_validated_against_impl"] += res.get("cases", 0)
         self.cov["distinct_nontrivial"] += res.get("nontrivial", 0)
         for s in res.get("samples") or []:
             if len(self.cov["samples"]) < 12:
